@@ -39,13 +39,13 @@ T = {
  "C16": ("exploration", "negative-request monitor: every invalidating change and pair must yield error and no bytes; controls must succeed",
          "Valid base requests x ~95 invalidating changes (singles - also on a used envelope object - and pairs) in both formats, local/remote signers, six key specs and both schemes are executed; the oracle is err != nil, no bytes, no panic, and the converse for valid controls.", "The catalogue of invalidating changes is read off the statement.", "DESIGN 4/C16"),
  "C17": ("exploration", "Go race detector + barrier-forced schedules + goroutine-leak and panic-routing monitors",
-         "In a -race child: every permutation of releasing the concurrent per-certificate exchanges (k<=4), 1-32 concurrent callers on shared validator/client/fetcher/cache, panic injection at each exchange / pair / all (also while a body is read, and as series of 12 recovered panics on one validator followed by a healthy call), cancellation at each exchange (on arrival, on delivery, while a body is read); results must equal the sequential reference, no race report may name the library, no library goroutine, open exchange or unclosed response body may remain, no shared CRL bundle object may be written to, injected panics must resurface on the caller.", "Completion order is forced from outside (no hook); evidence lists the orders actually observed.", "DESIGN 4/C17"),
+         "In a -race child: every permutation of releasing the concurrent per-certificate exchanges (k<=4), 1-32 concurrent callers on shared validator/client/fetcher/cache, panic injection at each exchange / pair / all (also while a body is read, and as series of 12 recovered panics on one validator followed by a healthy call), cancellation at each exchange (on arrival, on delivery, while a body is read); results must equal the sequential reference, no race report may name the library, no library goroutine, open exchange or unclosed response body may remain, no shared CRL bundle object (the kits', the cache's - also entries preloaded with an expired delta) and no caller certificate may be written to, callers that scribble over their own results must not be felt by others, injected panics must resurface on the caller.", "Completion order is forced from outside (no hook); evidence lists the orders actually observed.", "DESIGN 4/C17"),
  "C18": ("fault_enumeration", "history enumeration against an executable reference model of server, cache and armed faults",
-         "All histories to depth 3 (quick) / 4 (thorough, 5 for four shapes) over {fetch, publish, publish a newer base while the delta locations lag, cache entry states, cache/server faults} x DiscardCacheError x 16 freshest-CRL shapes are run against the real HTTPFetcher; each Fetch result, the cache writes and the request sequence must match the model (Appendix A.4). Cached bundles are also watched crossing their next-update instant under continuous fetching.", "Model trusted; scripted expiry is 2001 vs 2096, the boundary is observed live (sound rule: began after the instant and still served from the cache).", "DESIGN 4/C18"),
+         "All histories to depth 3 (quick) / 4 (thorough, 5 for four shapes) over {fetch, publish, publish a newer base while the delta locations lag, a late publisher serving a stale base / stale first delta, cache entry states, cache/server faults, DiscardCacheError flipped between calls} x DiscardCacheError x 17 freshest-CRL shapes are run against the real HTTPFetcher; each Fetch result, the cache writes and the request sequence must match the model (Appendix A.4). Also: the caller's context ending the moment the base reply is delivered, a cache attached to / detached from a used fetcher, and cached bundles watched crossing their next-update instant under continuous fetching; a panicking Fetch is a violation.", "Model trusted; scripted expiry is 2001 vs 2096, the boundary is observed live (sound rule: began after the instant and still served from the cache).", "DESIGN 4/C18"),
  "C19": ("exploration", "exhaustive enumeration over a look-alike certificate pool against a reference",
-         "All ordered chains (1-4) x all ordered trust lists (0-4) over a pool with look-alike certificates are passed to VerifyAuthenticity and compared with the reference; AuthenticSigningTime is checked on the scheme x time grid.", "Reference trusted; pointer identity beyond DER equality + membership is not asserted.", "DESIGN 4/C19"),
+         "All ordered chains (1-4) x all ordered trust lists (0-4) over a pool with look-alike certificates are passed to VerifyAuthenticity and compared with the reference (the caller's lists must come back as they went in); AuthenticSigningTime is checked on the scheme x time x expiry x timestamp-attribute grid.", "Reference trusted; pointer identity beyond DER equality + membership is not asserted.", "DESIGN 4/C19"),
  "C20": ("exploration", "history enumeration against a nondeterministic reference state machine",
-         "All operation histories up to length 4 (quick) / 6 (thorough) over {sign A, sign B, early-failing sign, late-failing sign (five variants), verify, content, another object signs elsewhere} from new / parsed-valid / parsed-tampered objects in both formats with local and remote signers are executed; the monitor tracks the set of reference states consistent with all outputs and reports when it becomes empty.", "Reference machine (Appendix A.5) trusted.", "DESIGN 4/C20"),
+         "All operation histories up to length 4 (quick) / 6 (thorough) over {sign A, sign B, early-failing sign, late-failing sign (five variants), verify, content, another object signs elsewhere} from new / parsed-valid / parsed-tampered objects in both formats with local and remote signers are executed; the monitor tracks the set of reference states consistent with all outputs and reports when it becomes empty; bytes and contents handed out earlier must stay what they were.", "Reference machine (Appendix A.5) trusted.", "DESIGN 4/C20"),
 }
 BUILT = set(open(os.path.join(ROOT, "tools", "built.txt")).read().split())
 checks, na = [], []
